@@ -70,6 +70,41 @@ Theorem C07_shape_change_invalidates : forall Fp Gp Xp c s o y,
   snd (step Fp Gp Xp c s o) = snd (step Fp Gp Xp c empty o).
 Proof. intros Fp Gp Xp c s o y Hc Hs. apply (step_new_point Fp Gp Xp c s o y Hc). apply shape_neq. exact Hs. Qed.
 
+(* start() called again on the same plug-in object: whatever state [s] the object was left in (any state,
+   not only a reachable one), after start() every value returned is again the oracle's value at the
+   requested point and evaluations happen at the requested point only ... *)
+Theorem C07_restart_values_fresh : forall Fp Gp Xp c s ops,
+  Forall (fun t : op * list inv * ret =>
+            snd t = expected Fp Gp Xp c (fst (fst t)) /\
+            forall iv, In iv (snd (fst t)) -> pt_of iv = op_pt (fst (fst t)))
+         (run Fp Gp Xp c (restart s) ops).
+Proof.
+  intros Fp Gp Xp c s ops.
+  pose proof (values_fresh_restart Fp Gp Xp c s ops) as A. pose proof (calls_at_point_restart Fp Gp Xp c s ops) as B.
+  rewrite Forall_forall in *. intros t Ht. split; [apply A | apply B]; exact Ht.
+Qed.
+
+(* ... and nothing is requested twice while the point does not change *)
+Theorem C07_restart_no_recompute : forall Fp Gp Xp c s0 pre ops x,
+  Forall (fun o => op_pt o = x) ops ->
+  let s := exec Fp Gp Xp c (restart s0) pre in
+  count_rf (all_calls (run Fp Gp Xp c s ops)) <= 1 /\ count_rg (all_calls (run Fp Gp Xp c s ops)) <= 1.
+Proof. exact no_recompute_restart. Qed.
+
+(* a chain of runs on ONE plug-in object and ONE EnsembleEvaluator ([run_chain]: start() once per request
+   list, the evaluator's function cache carried over): every run returns, request by request, the oracle's
+   values; a gradient-free method never causes a gradient evaluation and split_evaluations never computes
+   both, in every run of the chain *)
+Theorem C07_chain_values_fresh : forall Fp Gp Xp c seqs s ec,
+  Forall2 (fun ops res => map fst res = map (expected Fp Gp Xp c) ops) seqs (run_chain Fp Gp Xp c s ec seqs).
+Proof. exact chain_values_fresh. Qed.
+
+Theorem C07_chain_evaluations : forall Fp Gp Xp c seqs s ec res r ce,
+  In res (run_chain Fp Gp Xp c s ec seqs) -> In r res -> In ce (snd r) ->
+  (c_nograd c = true -> rg_of (fst ce) = false) /\
+  (c_split c = true -> rf_of (fst ce) && rg_of (fst ce) = false).
+Proof. exact chain_calls_good. Qed.
+
 (* EnsembleEvaluator.calculate: a gradient-only request right after a function request at the same point
    evaluates perturbations only (the functions are not evaluated again); at another point nothing is reused *)
 Theorem C07_evaluator_cache_reuse : forall ec i,
@@ -109,5 +144,9 @@ Print Assumptions C07_split.
 Print Assumptions C07_speculative_values.
 Print Assumptions C07_new_point_reads_nothing.
 Print Assumptions C07_shape_change_invalidates.
+Print Assumptions C07_restart_values_fresh.
+Print Assumptions C07_restart_no_recompute.
+Print Assumptions C07_chain_values_fresh.
+Print Assumptions C07_chain_evaluations.
 Print Assumptions C07_evaluator_cache_reuse.
 Print Assumptions C07_evaluator_no_stale_reuse.
